@@ -75,6 +75,8 @@ def sweep(ctx):
     G.g12_dead_parameter(ctx, funcs, rule=pre + "G12")
     G.g13_inplace_alias(ctx, funcs, rule=pre + "G13")
     G.g14_exact_compare(ctx, funcs, rule=pre + "G14")
+    G.g15_leaked_loop_variable(ctx, funcs, rule=pre + "G15")
+    G.g16_symmetric_arms(ctx, funcs, rule=pre + "G16")
     sec = [f for f in P.funcs if f not in set(funcs) and secondary(pid, f.module.name)]
     if sec:
         ctx.note(f"supporting code: {len(sec)} functions of modules {SECONDARY[pid]}")
